@@ -285,6 +285,12 @@ def rule_copy(c, prog):
     # children enqueued: `for child in instance.children… { queue.push_back((new_ref, child)) }` or
     # `queue.extend(instance.children….map(|child| (new_ref, child)))`
 
+    def is_ctx_queue(recv):
+        """the work queue: the VecDeque field of the CloneContext (whatever it is called)"""
+        ty = (recv.get("ty") or "") + (recv.get("aty") or "")
+        root, path = core.place_root(recv)
+        return "VecDeque" in ty and root == "self" and len([p for p in path if not p.startswith(".")]) == 1
+
     def pair_ok(t, child_lids):
         t = core.strip(t)
         if not (t.get("k") == "Tup" and len(t["args"]) == 2 and is_new_ref(t["args"][0])):
@@ -296,10 +302,10 @@ def rule_copy(c, prog):
         if lid == inst_lid and "children" in path and set(p for p in path if p.startswith(".")) <= {".iter()", ".into_iter()", ".copied()", ".cloned()"}:
             child_lids = set(pat_lids(fl[0]))
             for n in core.walk(fl[2]):
-                if n.get("k") == "MethodCall" and n["m"] == "push_back" and core.place_root(n["recv"])[1][-1:] == ["queue"] and pair_ok(n["args"][0], child_lids):
+                if n.get("k") == "MethodCall" and n["m"] == "push_back" and is_ctx_queue(n["recv"]) and pair_ok(n["args"][0], child_lids):
                     ok = True
     for n in calls:
-        if n.get("k") == "MethodCall" and n["m"] == "extend" and core.place_root(n["recv"])[1][-1:] == ["queue"] and n["args"]:
+        if n.get("k") == "MethodCall" and n["m"] == "extend" and is_ctx_queue(n["recv"]) and n["args"]:
             chain, base = _chain(n["args"][0])
             a = core.strip(n["args"][0])
             lid, path = core.place_root_lid(a)
